@@ -8,7 +8,7 @@ from pathlib import Path
 from . import driver as D
 
 SIZES_ALIGNS = [(s, a) for s in (1, 2, 3, 4, 5, 7, 8, 12, 16, 24) for a in (1, 2, 4, 8, 16) if s % a == 0]
-KINDS = ['trivial', 'tr_declared', 'non_tr', 'throwing_move', 'opted_out']
+KINDS = ['trivial', 'tr_declared', 'non_tr', 'throwing_move', 'opted_out', 'throwing_assign']
 PAIRS = [('trivial', 'trivial'), ('trivial', 'non_tr'), ('tr_declared', 'trivial'), ('opted_out', 'trivial'), ('tr_declared', 'tr_declared')]
 N_FIXED = list(range(0, 11)) + [15, 16, 17, 31, 32, 33, 40, 255, 256, 65535, 65536]
 PTR = 8
@@ -39,6 +39,9 @@ template <int S, int A> struct NonTr { Bytes<S, A> d;
 template <int S, int A> struct ThrowingMove { Bytes<S, A> d;
   ThrowingMove() {} ThrowingMove(const ThrowingMove &o) : d(o.d) {} ThrowingMove(ThrowingMove &&o) noexcept(false) : d(o.d) {}
   ThrowingMove &operator=(const ThrowingMove &o) { d = o.d; return *this; } ThrowingMove &operator=(ThrowingMove &&o) noexcept(false) { d = o.d; return *this; } ~ThrowingMove() {} };
+template <int S, int A> struct ThrowingAssign { Bytes<S, A> d;
+  ThrowingAssign() {} ThrowingAssign(const ThrowingAssign &o) : d(o.d) {} ThrowingAssign(ThrowingAssign &&o) noexcept : d(o.d) {}
+  ThrowingAssign &operator=(const ThrowingAssign &o) { d = o.d; return *this; } ThrowingAssign &operator=(ThrowingAssign &&o) noexcept(false) { d = o.d; return *this; } ~ThrowingAssign() {} };
 template <int S, int A> struct OptedOut { using trivially_relocatable = std::false_type; Bytes<S, A> d; };
 template <class V> struct SwapNoexcept { static const bool value = noexcept(std::declval<V &>().swap(std::declval<V &>())); };
 template <class T> struct TrOf { static const bool value = amc::is_trivially_relocatable<T>::value; };
@@ -70,7 +73,7 @@ static void row_set(const char *id) {
 #endif
 '''
 
-CXX_KIND = {'trivial': 'Trivial', 'tr_declared': 'TrDeclared', 'non_tr': 'NonTr', 'throwing_move': 'ThrowingMove', 'opted_out': 'OptedOut'}
+CXX_KIND = {'trivial': 'Trivial', 'tr_declared': 'TrDeclared', 'non_tr': 'NonTr', 'throwing_move': 'ThrowingMove', 'opted_out': 'OptedOut', 'throwing_assign': 'ThrowingAssign'}
 
 
 def tname(t):
@@ -115,6 +118,12 @@ def t_trivially_destructible(t):
 def t_nothrow_move(t):  # move construction and move assignment
     if t[0] == 'pair':
         return t_nothrow_move(t[1]) and t_nothrow_move(t[2])
+    return t[0] not in ('throwing_move', 'throwing_assign')
+
+
+def t_nothrow_move_ctor(t):
+    if t[0] == 'pair':
+        return t_nothrow_move_ctor(t[1]) and t_nothrow_move_ctor(t[2])
     return t[0] != 'throwing_move'
 
 
@@ -129,9 +138,13 @@ def expect_dyn(t, n, vec_size):
         e['sizeofSV_max'] = vec_size
     else:
         e['sizeofSV_max'] = align_up(vec_size + n * s, max(a, PTR))
-    e['nmc_required'] = int(n == 0 or t_tr(t) or t_nothrow_move(t))
+    e['nmc_required'] = int(n == 0 or t_tr(t) or t_nothrow_move_ctor(t))
     e['nma_required'] = int(n == 0 or t_tr(t) or t_nothrow_move(t))
     e['nsw_required'] = int(n == 0 or t_nothrow_move(t))
+    # the other direction, only where the operation would run a throwing element operation inside a noexcept function
+    e['nmc_forbidden'] = int(n > 0 and not t_tr(t) and not t_nothrow_move_ctor(t))
+    e['nma_forbidden'] = int(n > 0 and not t_tr(t) and not t_nothrow_move(t))
+    e['nsw_forbidden'] = int(n > 0 and not t_nothrow_move_ctor(t))
     e['trTypedef'] = int(True if n == 0 else t_tr(t))
     e['trFlatSet'] = e['trTypedef']
     return e
@@ -139,8 +152,10 @@ def expect_dyn(t, n, vec_size):
 
 def expect_fcv(t, n):
     st = 1 if n <= 255 else 2 if n <= 65535 else 4 if n <= 4294967295 else 8
-    return {'tdF': int(t_trivially_destructible(t)), 'stBytes': st, 'stUnsigned': 1, 'nmc_required': int(t_tr(t) or t_nothrow_move(t)),
-            'nma_required': int(t_tr(t) or t_nothrow_move(t)), 'nsw_required': int(t_nothrow_move(t)), 'trTypedef': int(t_tr(t)), 'sizeofT': t_size(t)}
+    return {'tdF': int(t_trivially_destructible(t)), 'stBytes': st, 'stUnsigned': 1, 'nmc_required': int(t_tr(t) or t_nothrow_move_ctor(t)),
+            'nma_required': int(t_tr(t) or t_nothrow_move(t)), 'nsw_required': int(t_nothrow_move(t)), 'trTypedef': int(t_tr(t)), 'sizeofT': t_size(t),
+            'nmc_forbidden': int(n > 0 and not t_tr(t) and not t_nothrow_move_ctor(t)), 'nma_forbidden': int(n > 0 and not t_tr(t) and not t_nothrow_move(t)),
+            'nsw_forbidden': int(n > 0 and not t_nothrow_move_ctor(t))}
 
 
 def all_types():
@@ -225,6 +240,8 @@ def compare(std, rows, table):
         for k, what in (('nmc', 'move construction'), ('nma', 'move assignment'), ('nsw', 'swap')):
             if e[k + '_required'] and not d[k]:
                 bad.append((rid, 'c++%s: %s of SmallVector<T,%d> must be noexcept under the documented condition but is not' % (std, what, n)))
+            if e[k + '_forbidden'] and d[k]:
+                bad.append((rid, 'c++%s: %s of SmallVector<T,%d> is declared noexcept although it runs a throwing element operation' % (std, what, n)))
         if n >= 0:
             f = table.get(('FCV', rid))
             if f is None:
@@ -237,6 +254,8 @@ def compare(std, rows, table):
             for k, what in (('nmc', 'move construction'), ('nma', 'move assignment'), ('nsw', 'swap')):
                 if ef[k + '_required'] and not f[k]:
                     bad.append((rid, 'c++%s: %s of FixedCapacityVector<T,%d> must be noexcept under the documented condition but is not' % (std, what, n)))
+                if ef[k + '_forbidden'] and f[k]:
+                    bad.append((rid, 'c++%s: %s of FixedCapacityVector<T,%d> is declared noexcept although it runs a throwing element operation' % (std, what, n)))
         if 1 <= n <= 64 and std in ('17', '20'):
             s = table.get(('SET', rid))
             if s is None:
